@@ -15,6 +15,7 @@ import (
 	"sort"
 	"strings"
 	"sync"
+	"sync/atomic"
 	"time"
 
 	R "github.com/Trisia/randomness"
@@ -1220,6 +1221,86 @@ func bufferReuse(c *ev.Ctx, seed uint64) {
 	c.Count("calls_on_a_refilled_caller_buffer", n)
 }
 
+// entryHammer: every cheap entry point from 64 goroutines at once, each on short inputs of its own; every result
+// must equal the solo result bit for bit. Used in the plain binary and in the -race child.
+func entryHammer(seed uint64, per int, report func(key, msg string), done func(name string)) int64 {
+	heavy := map[string]bool{"LinearComplexity500": true, "DFT": true, "DFTBytes": true, "Round12": true, "Round15": true, "Maurer": true, "MatrixRank": true}
+	var hcalls []pureCall
+	for _, cl := range pureCalls(8968) {
+		if !heavy[cl.Name] && !strings.HasPrefix(cl.Name, "registry") {
+			hcalls = append(hcalls, cl)
+		}
+	}
+	hcalls = append(hcalls, pureCall{Name: "MatrixRank(2048 bits)", Fn: func(d []byte, b []bool) []float64 {
+		p, q := R.MatrixRankTestBytes(d[:256], 32, 32)
+		return []float64{p, q}
+	}})
+	const G = 64
+	type inp struct {
+		d []byte
+		b []bool
+	}
+	inputs := make([][]inp, G)
+	for g := 0; g < G; g++ {
+		for k, nb := range []int{256, 320, 512, 1280} {
+			fam := []string{"uniform", "zeros", "slight", "ones", "bias"}[(g+k)%5]
+			bits := gen.Seq{Fam: fam, N: nb * 8, A: 900, Seed: gen.Mix(seed, 1877, uint64(g), uint64(k))}.Bits()
+			inputs[g] = append(inputs[g], inp{gen.Pack(bits), gen.Bools(bits)})
+		}
+	}
+	var hammered, hbad int64
+	for _, cl := range hcalls {
+		cl := cl
+		solo := make([][][]float64, G)
+		ok := true
+		for g := 0; g < G && ok; g++ {
+			for _, in := range inputs[g] {
+				var v []float64
+				if p, _ := guard(func() { v = cl.Fn(in.d, in.b) }); p {
+					ok = false // inputs this short are outside some tests' domain; not this phase's business
+					break
+				}
+				solo[g] = append(solo[g], v)
+			}
+		}
+		if !ok {
+			continue
+		}
+		var wg sync.WaitGroup
+		start := make(chan struct{})
+		for g := 0; g < G; g++ {
+			wg.Add(1)
+			go func(g int) {
+				defer wg.Done()
+				<-start
+				for k := 0; k < per; k++ {
+					if atomic.LoadInt64(&hbad) > 20 {
+						return
+					}
+					j := k % len(inputs[g])
+					in := inputs[g][j]
+					var v []float64
+					if p, m := guard(func() { v = cl.Fn(in.d, in.b) }); p {
+						atomic.AddInt64(&hbad, 1)
+						report("hammer:"+cl.Name+":panic", m)
+						return
+					}
+					if !sameVec(v, solo[g][j]) {
+						atomic.AddInt64(&hbad, 1)
+						report("hammer:"+cl.Name, fmt.Sprintf("%s called from %d goroutines at once, each on its own %d-byte input: goroutine %d call %d returned %v, alone it returns %v", cl.Name, G, len(in.d), g, k, v, solo[g][j]))
+						return
+					}
+				}
+			}(g)
+		}
+		close(start)
+		wg.Wait()
+		atomic.AddInt64(&hammered, int64(G*per))
+		done(cl.Name)
+	}
+	return hammered
+}
+
 func weakKeyPairs(c *ev.Ctx, seed uint64) {
 	type bcall struct {
 		name string
@@ -1505,6 +1586,17 @@ func runC18(c *ev.Ctx) {
 		})
 		c.Count("soak_repeated_calls", soak)
 	}
+	// (b4) hammer: every cheap entry point from 64 goroutines at once, each on inputs of its own (short, so
+	// that calls are frequent): whatever an entry point recycles between calls (pools, scratch tables) must
+	// not be visible to a concurrent caller of the SAME entry point
+	{
+		per := 1500
+		if c.Lite() {
+			per = 300
+		}
+		n := entryHammer(seed, per, func(key, msg string) { c.Violation(key, msg, "c18", nil) }, func(name string) { c.Eval(ev.HashStr("hammer|"+name), true) })
+		c.Count("hammer_concurrent_calls_same_entry_point", n)
+	}
 	weakKeyPairs(c, seed)
 	bufferReuse(c, seed)
 	windowViews(c, seed)
@@ -1633,6 +1725,10 @@ func init() {
 			total.Batches += r.Batches
 			total.Mismatches = append(total.Mismatches, r.Mismatches...)
 			total.InputChanged = append(total.InputChanged, r.InputChanged...)
+		}
+		{
+			n := entryHammer(seed, 120, func(key, msg string) { total.Mismatches = append(total.Mismatches, key+": "+msg) }, func(string) {})
+			total.Calls += int(n)
 		}
 		b, _ := json.Marshal(total)
 		_ = os.WriteFile(args[2], b, 0o644)
